@@ -817,8 +817,11 @@ class Executor3(Executor2):
                 exits_out.append(x)
         for b in back:
             b.env["$i"] = SV("int", iv + 1)
-            inv_b = self.inv_eval(L.invariant, b, entry)
-            self._ob(b, inv_b, "%s.invariant-preserved" % tag, "loop")
+            if getattr(L, "split", False):
+                self.ob_invariant_preserved(L, b, entry, tag)
+            else:
+                inv_b = self.inv_eval(L.invariant, b, entry)
+                self._ob(b, inv_b, "%s.invariant-preserved" % tag, "loop")
             if itv_live is not None:
                 el1, n1, _, _ = self._rl(b, itv_live)
                 kq = z3.Int("k!snap%d" % self._nf())
